@@ -41,6 +41,7 @@ class Engine(ExprMixin, CallMixin, BuiltinMixin, ApplyMixin, StmtMixin, _Base):
         fr.inline_depth = 0
         fr.current_exc = None
         fr.entry_state = None
+        fr.abstracted = []
 
     def emit(self, kind, name, assumptions, goal, fr, line, text, props):
         fi = fr.fi
@@ -173,6 +174,7 @@ class Engine(ExprMixin, CallMixin, BuiltinMixin, ApplyMixin, StmtMixin, _Base):
         rep["set_iterations"] = fr.set_iterations
         rep["callees"] = sorted(fr.callees)
         rep["effects"] = fr.effects
+        rep["abstracted"] = fr.abstracted
 
     def check_post(self, fi, c, fr, spec_fr, entry: St, st: St, val: SV, snap):
         env = dict(entry.env)
@@ -181,8 +183,8 @@ class Engine(ExprMixin, CallMixin, BuiltinMixin, ApplyMixin, StmtMixin, _Base):
         if rsort and val.pt == "any":
             val = self.with_sort(val.t, rsort)
         env["result"] = val
-        env["old"] = SV(None, "pyfunc", py=("old", snap))
-        post_st = St(st.guards, st.facts, env, st.heap, st.eff)
+        env["snap"] = SV(None, "pyfunc", py=("old", snap))
+        post_st = St(st.guards, st.facts, env, st.heap, st.eff, st.epoch)
         spec_fr.old_state = entry
         spec_fr.exit_env = st.env
         for cl in c.ensures:
@@ -210,14 +212,14 @@ class Engine(ExprMixin, CallMixin, BuiltinMixin, ApplyMixin, StmtMixin, _Base):
 
     def check_raise(self, fi, c, fr, spec_fr, entry: St, o: Outcome, snap):
         env = dict(entry.env)
-        env["old"] = SV(None, "pyfunc", py=("old", snap))
+        env["snap"] = SV(None, "pyfunc", py=("old", snap))
         st = o.st
-        post_st = St(st.guards, st.facts, env, st.heap, st.eff)
+        post_st = St(st.guards, st.facts, env, st.heap, st.eff, st.epoch)
         spec_fr.old_state = entry
         allowed = []
         for cl in c.raises:
             if cl.name in ("*",) or cl.name == o.exc or o.exc in self.voc.subclasses_of(cl.name):
-                pre_st = St(st.guards, st.facts, env, entry.heap, entry.eff)
+                pre_st = St(st.guards, st.facts, env, entry.heap, entry.eff, entry.epoch)
                 allowed.append(self.eval_clause(cl, pre_st, spec_fr))
                 st.facts[:] = pre_st.facts
         goal = z3.Or(allowed) if allowed else z3.BoolVal(False)
@@ -235,18 +237,21 @@ class Engine(ExprMixin, CallMixin, BuiltinMixin, ApplyMixin, StmtMixin, _Base):
 def _solve_one(job):
     name, text, timeout_ms, seed, expect_fail = job
     if expect_fail:
-        timeout_ms = min(timeout_ms, 1500)
-    verdict, secs, solver, reason = solve_smt2(text, timeout_ms, seed)
+        verdict, secs, solver, reason = solve_smt2(text, min(timeout_ms, 1000), seed, mode="ematching")
+        return name, verdict, secs, solver, reason, [(solver, verdict, round(secs, 3))]
+    verdict, secs, solver, reason = solve_smt2(text, timeout_ms, seed, mode="ematching")
     tried = [(solver, verdict, round(secs, 3))]
-    if verdict != "unsat" and not expect_fail:
-        for alt in ("cvc5", "z3-4.8"):
-            v2, s2, n2, _ = solve_cli(text, alt, max(2, timeout_ms // 1000))
+    if verdict != "unsat":
+        for alt in ("cvc5", "z3-default", "z3-4.8"):
+            if alt == "z3-default":
+                v2, s2, n2, _ = solve_smt2(text, timeout_ms, seed, mode="default")
+            else:
+                v2, s2, n2, _ = solve_cli(text, alt, max(10, timeout_ms // 1000))
             tried.append((n2, v2, round(s2, 3)))
+            secs += s2
             if v2 == "unsat":
                 verdict, solver = v2, n2
-                secs += s2
                 break
-            secs += s2
     return name, verdict, secs, solver, reason, tried
 
 
